@@ -1,4 +1,5 @@
 """C02 Boolean connectives, ITE, constants: terminal cases + wiring"""
+import edm
 import etaut
 import ector
 import ecof
@@ -88,4 +89,8 @@ def run(ctx):
                 "with Base, walks the levels bottom-up and appends node(level; prev, prev) per level, then stores the chain.")
     n = etaut.run(ctx, F)
     ctx.floor("E-TAUT", "lookup / build situations", n, 8)
+    ctx.explain("E-CACHE.dm: the results of the recursion are memoised in the direct-mapped apply cache, which holds uncounted "
+                "edges: it compares and hashes all key parts, and every entry is cleared (under its lock) in pre_gc / before a "
+                "reordering, so that no entry survives the collection of one of its nodes and is served for a recycled id.")
+    edm.run(ctx, F)
     ctx.not_decided = "the default value of variables missing from eval's arguments, behaviour under memory exhaustion and parallel scheduling"
